@@ -15,6 +15,7 @@ Ok(ev) == CASE ev.e = "store" -> StoreAllowed(ev)
             [] ev.e = "ptrchain" -> NeverOut(ev)
             [] ev.e = "entry" -> EntryAllowed(ev)
             [] ev.e = "grant" -> GrantAllowed(ev)
+            [] ev.e = "fnaddr" -> FnAddrAllowed(ev)
             [] ev.e = "setup" -> TRUE
             [] OTHER -> FALSE
 CONSTANT OpenFindings     \* ids of the open entries of known_findings.json
